@@ -17,12 +17,12 @@ import (
 func (e *Engine) runNested(fn *ssa.Function, args []Value) (res Value, ok bool) {
 	saveTh, saveThreads := e.th, e.threads
 	saveMark, savePS, saveTop, saveFr, saveSTh := e.stepMark, e.stepPS, e.stepTop, e.stepFr, e.stepTh
-	savePre, savePreIdx, savePend := e.pre, e.preIdx, e.pendingAdv
+	savePre, savePreUsed, saveSeq, savePend := e.pre, e.preUsed, e.decSeq, e.pendingAdv
 	saveDone, saveOutcome := e.done, e.outcome
 	th := &Thread{id: -1}
 	e.th = th
 	e.threads = []*Thread{th}
-	e.pre, e.preIdx, e.pendingAdv = nil, 0, nil
+	e.pre, e.preUsed, e.decSeq, e.pendingAdv = nil, 0, 0, nil
 	e.done, e.outcome = false, ""
 	defer func() {
 		r := recover()
@@ -33,7 +33,7 @@ func (e *Engine) runNested(fn *ssa.Function, args []Value) (res Value, ok bool) 
 		}
 		e.th, e.threads = saveTh, saveThreads
 		e.stepMark, e.stepPS, e.stepTop, e.stepFr, e.stepTh = saveMark, savePS, saveTop, saveFr, saveSTh
-		e.pre, e.preIdx, e.pendingAdv = savePre, savePreIdx, savePend
+		e.pre, e.preUsed, e.decSeq, e.pendingAdv = savePre, savePreUsed, saveSeq, savePend
 		out := e.outcome
 		e.done, e.outcome = saveDone, saveOutcome
 		if r != nil {
